@@ -14,6 +14,11 @@ class UserLink(SymlinkNodeMixin):
         self.parent = parent
 
 
+class ROAny(AnyNode):
+    """a target class with a read-only (getter-only) property: assigning `ro` raises AttributeError"""
+    ro = property(lambda self: 42)
+
+
 def snapshot(objs):
     idx = {id(o): i for i, o in enumerate(objs)}
     return [[None if o.parent is None else idx[id(o.parent)], [idx[id(c)] for c in o.children]] for o in objs]
@@ -58,7 +63,13 @@ def impl(case):
         k = op["op"]
         try:
             if k == "new":
-                objs.append(AnyNode())
+                objs.append(ROAny() if op.get("kind") == "ro" else AnyNode())
+            elif k == "setro":
+                try:
+                    setattr(objs[op["i"]], "ro", vals.obj(op["v"]))
+                    out.append("ok")
+                except AttributeError:
+                    out.append("AttributeError")
             elif k == "link":
                 kw = {a: vals.obj(b) for a, b in op["kw"]}
                 cls = UserLink if (case.get("userlink") and not kw) else SymlinkNode
